@@ -39,6 +39,8 @@ def specAns (b : Bal) : Op → Option (Int × Err)
   | .set u m => if Valid u then some (m, .none) else some (-1, .invalidUID)
   | .de u m => if Valid u then some (deNew (b u) m, .none) else some (-1, .invalidUID)
   | .get u => if Valid u then some (b u, .none) else none
+  | .sync u _ perm => if Valid u then some (Int.ofNat perm, .none) else some (0, .invalidUID)
+  | .load u => if Valid u then some (b u, .none) else some (0, .invalidUserID)
 
 /-- every operation, on every slot (valid or not), inside int32: the new state represents the new abstract table
 — SHM on every valid slot, .PASSWDS on every slot that agreed before or was just written — and the answer is
@@ -75,11 +77,44 @@ theorem money_refines (s : State) (b : Bal) (D : Int → Prop) (o : Op) (h : Agr
       · rw [if_pos hu] at hr; cases hr
         rw [moneyOf_valid s u (b u) hu (h.2.1 u hu).1]; rfl
       · rw [if_neg hu] at hr; cases hr
+  | sync u rec perm =>
+      simp only [specAns] at hr
+      simp only [step]
+      by_cases hu : Valid u
+      · rw [if_pos hu] at hr; cases hr
+        exact (agree_sync s b D u rec perm h hu hno.1).1
+      · rw [if_neg hu] at hr; cases hr
+        rw [setUserPerm_invalid s u rec perm hu]
+  | load u =>
+      simp only [specAns] at hr
+      simp only [step]
+      by_cases hu : Valid u
+      · rw [if_pos hu] at hr; cases hr
+        obtain ⟨⟨hs, f, hf, hlen⟩, hshm, _⟩ := h
+        obtain ⟨h0, hk, _⟩ := valid_bounds u hu
+        have hq : ∃ r, passwdQuery s u = .ok r := by
+          unfold passwdQuery
+          have hin : RSZ * (u - 1).toNat + RSZ ≤ f.length := by
+            have h1 : RSZ * ((u - 1).toNat + 1) ≤ RSZ * MAX := Nat.mul_le_mul_left _ hk
+            rw [Nat.mul_succ] at h1
+            rw [hlen]; exact h1
+          simp only [(uidIsValid_iff u).2 hu, Bool.not_true, Bool.false_eq_true, if_false, hf, toIdx_valid u hu]
+          rw [if_neg (by omega), if_pos hin]
+          exact ⟨_, rfl⟩
+        obtain ⟨r, hq⟩ := hq
+        rw [hq, moneyOf_valid s u (b u) hu (hshm u hu).1]; rfl
+      · rw [if_neg hu] at hr; cases hr
+        have hv : uidIsValid u = false := by
+          cases h' : uidIsValid u
+          · rfl
+          · exact absurd ((uidIsValid_iff u).1 h') hu
+        simp [passwdQuery, hv]
 
 /-! #### histories -/
 
-/-- after ANY sequence of set / credit / debit / read operations on ANY slots whose arithmetic stays inside
-int32, starting from a state where SHM and .PASSWDS hold `b₀`: for every valid slot (first and last included)
+/-- after ANY sequence of set / credit / debit / read operations and whole-record writes (`ptt.SetUserPerm`
+with ANY record the caller may hold — however stale its Money) and record loads, interleaved in any order, on
+ANY slots, whose arithmetic stays inside int32, starting from a state where SHM and .PASSWDS hold `b₀`: for every valid slot (first and last included)
 the SHM value, the little-endian int32 in the `Money` bytes of the slot's record and the abstract balance are
 the same; the state is still well-formed. -/
 theorem money_history (s₀ : State) (b₀ : Bal) (os : List Op) (h : Agree s₀ b₀ (fun _ => True))
@@ -165,17 +200,25 @@ theorem writes_never_fault (s : State) (u m : Int) (hs : s.shm.length = MAX) :
 
 /-! #### frame: nothing but the four Money bytes of the addressed record changes -/
 
-/-- EVERY operation (any slot, any amount, overflowing or not) on a well-formed state: the file keeps its
-length, and every byte outside the four `Money` bytes of the record of the valid slot the operation writes is
-unchanged — in particular all bytes when the slot is invalid or the operation is a read. -/
+/-- the bytes of `.PASSWDS` an operation addressed to the valid slot `u` may change: the four `Money` bytes of
+record `u` for set / credit / debit, the whole record `u` for a whole-record write, nothing for reads. -/
+def span (o : Op) (u : Int) (i : Nat) : Prop :=
+  match o with
+  | .set _ _ | .de _ _ =>
+      Gen.Money.recSize * (u - 1).toNat + Gen.Money.moneyOffset ≤ i ∧
+      i < Gen.Money.recSize * (u - 1).toNat + Gen.Money.moneyOffset + 4
+  | .sync _ _ _ =>
+      Gen.Money.recSize * (u - 1).toNat ≤ i ∧ i < Gen.Money.recSize * (u - 1).toNat + Gen.Money.recSize
+  | _ => False
+
+/-- EVERY operation (any slot, any amount, overflowing or not, any caller record of `recSize` bytes) on a
+well-formed state: the file keeps its length, and every byte outside the span of the valid slot the operation
+writes is unchanged — in particular all bytes when the slot is invalid or the operation is a read. -/
 theorem money_frame (s : State) (f : List Nat) (o : Op) (hs : s.shm.length = MAX) (hf : s.file = some f)
-    (hlen : f.length = Gen.Money.recSize * MAX) :
+    (hlen : f.length = Gen.Money.recSize * MAX) (hrec : RecOK o) :
     ∃ f', (step s o).1.file = some f' ∧ f'.length = f.length ∧
-      ∀ i, (∀ u, Valid u → writes o u →
-              ¬ (Gen.Money.recSize * (u - 1).toNat + Gen.Money.moneyOffset ≤ i ∧
-                 i < Gen.Money.recSize * (u - 1).toNat + Gen.Money.moneyOffset + 4)) →
-           f'[i]? = f[i]? := by
-  rcases step_shape s f o hs hf with e | ⟨u, m', hu, hw, e⟩
+      ∀ i, (∀ u, Valid u → writes o u → ¬ span o u i) → f'[i]? = f[i]? := by
+  rcases step_shape s f o hs hf with e | ⟨u, m', hu, hw, e⟩ | ⟨u, rec, perm, v, ho, hu, hc, e⟩
   · rw [e]; exact ⟨f, hf, rfl, fun _ _ => rfl⟩
   · rw [e]
     obtain ⟨_, hk, _⟩ := valid_bounds u hu
@@ -184,15 +227,43 @@ theorem money_frame (s : State) (f : List Nat) (o : Op) (hs : s.shm.length = MAX
     refine ⟨_, rfl, writeAt_length _ _ _ hin, ?_⟩
     intro i hi
     have := hi u hu hw
-    rw [getElem?_writeAt _ _ _ _ hin, le32_length, if_neg this]
+    rw [getElem?_writeAt _ _ _ _ hin, le32_length]
+    cases o with
+    | set _ _ =>
+        rw [if_neg (show ¬ (Gen.Money.recSize * (u - 1).toNat + Gen.Money.moneyOffset ≤ i ∧
+          i < Gen.Money.recSize * (u - 1).toNat + Gen.Money.moneyOffset + 4) from this)]
+    | de _ _ =>
+        rw [if_neg (show ¬ (Gen.Money.recSize * (u - 1).toNat + Gen.Money.moneyOffset ≤ i ∧
+          i < Gen.Money.recSize * (u - 1).toNat + Gen.Money.moneyOffset + 4) from this)]
+    | get _ => exact absurd hw (by simp [writes])
+    | load _ => exact absurd hw (by simp [writes])
+    | sync _ _ _ =>
+        -- a whole-record write never takes this shape on a state whose step is a set; but the frame holds anyway
+        have hlay := gen_facts.2.2.2.1
+        rw [if_neg (by simp only [span] at this; omega)]
+  · subst ho
+    rw [e]
+    have hr : (recSetMoney (recSetLevel rec perm) v).length = Gen.Money.recSize :=
+      recSetMoney_length _ _ (recSetLevel_length rec perm hrec)
+    obtain ⟨_, hk, _⟩ := valid_bounds u hu
+    have hin : Gen.Money.recSize * (u - 1).toNat + (recSetMoney (recSetLevel rec perm) v).length ≤ f.length := by
+      have h1 : Gen.Money.recSize * ((u - 1).toNat + 1) ≤ Gen.Money.recSize * MAX := Nat.mul_le_mul_left _ hk
+      rw [Nat.mul_succ] at h1
+      rw [hr, hlen]; exact h1
+    refine ⟨_, rfl, writeAt_length _ _ _ hin, ?_⟩
+    intro i hi
+    have := hi u hu rfl
+    simp only [span] at this
+    rw [getElem?_writeAt _ _ _ _ hin, hr, if_neg this]
 
-/-- EVERY operation: the record of every other valid slot is byte-identical, and so is its SHM entry. -/
+/-- EVERY operation: the record of every other valid slot is byte-identical, and the SHM entry of every other
+valid slot — for a whole-record write: of every slot — is unchanged. -/
 theorem other_records_identical (s : State) (f : List Nat) (o : Op) (hs : s.shm.length = MAX)
-    (hf : s.file = some f) (hlen : f.length = Gen.Money.recSize * MAX) (v : Int) (hv : Valid v)
+    (hf : s.file = some f) (hlen : f.length = Gen.Money.recSize * MAX) (hrec : RecOK o) (v : Int) (hv : Valid v)
     (hnw : ¬ writes o v) :
     (∃ f', (step s o).1.file = some f' ∧ record f' v = record f v) ∧
     shmAt (step s o).1 v = shmAt s v := by
-  rcases step_shape s f o hs hf with e | ⟨u, m', hu, hw, e⟩
+  rcases step_shape s f o hs hf with e | ⟨u, m', hu, hw, e⟩ | ⟨u, rec, perm, w, ho, hu, hc, e⟩
   · rw [e]; exact ⟨⟨f, hf, rfl⟩, rfl⟩
   · rw [e]
     have hne : v ≠ u := by
@@ -207,6 +278,74 @@ theorem other_records_identical (s : State) (f : List Nat) (o : Op) (hs : s.shm.
       have hlay := gen_facts.2.2.2.1
       rcases blocks_apart _ _ (slot_ne u v hu hv hne) with h1 | h1 <;> omega
     · rw [shmAt_afterSet s f u m' v hs hu hv, if_neg hne]
+  · subst ho
+    rw [e]
+    have hne : v ≠ u := fun h => hnw h
+    have hr : (recSetMoney (recSetLevel rec perm) w).length = Gen.Money.recSize :=
+      recSetMoney_length _ _ (recSetLevel_length rec perm hrec)
+    refine ⟨⟨_, rfl, ?_⟩, rfl⟩
+    rw [record_afterSync f u v _ hlen hr hu hv, if_neg hne]
+
+/-! #### the whole-record path keeps SHM and .PASSWDS in step -/
+
+/-- `ptt.SetUserPerm(_, u, rec, perm)` → `passwdSyncUpdate` on a valid slot, for ANY record `rec` the caller holds
+(`recSize` bytes; its Money field may be arbitrarily stale): it succeeds; afterwards the Money bytes of record `u`
+decode to the SHM value = the abstract balance (SHM itself is untouched); every other byte of record `u` is the
+caller's record with the new UserLevel; the UserLevel bytes hold `perm`; all other records are byte-identical. -/
+theorem syncupdate_keeps_agreement (s : State) (b : Bal) (D : Int → Prop) (u : Int) (rec : List Nat) (perm : Nat)
+    (h : Agree s b D) (hu : Valid u) (hr : rec.length = Gen.Money.recSize) :
+    (step s (.sync u rec perm)).2 = .ok (Int.ofNat perm, .none) ∧
+    shmAt (step s (.sync u rec perm)).1 u = some (b u) ∧
+    diskAt (step s (.sync u rec perm)).1 u = some (b u) ∧
+    (step s (.sync u rec perm)).1.shm = s.shm ∧
+    ∃ f', (step s (.sync u rec perm)).1.file = some f' ∧
+      (∀ j, ¬ (Gen.Money.moneyOffset ≤ j ∧ j < Gen.Money.moneyOffset + 4) →
+          (record f' u)[j]? = (recSetLevel rec perm)[j]?) ∧
+      ((record f' u).drop Gen.Money.userLevelOffset).take 4 = le32 (Int.ofNat perm) ∧
+      ∀ v, Valid v → v ≠ u → ∃ f, s.file = some f ∧ record f' v = record f v := by
+  have hag := agree_sync s b D u rec perm h hu hr
+  obtain ⟨⟨hs, f, hf, hlen⟩, hshm, _⟩ := h
+  have hl1 := recSetLevel_length rec perm hr
+  have hl2 := recSetMoney_length _ (b u) hl1
+  simp only [step]
+  refine ⟨hag.1, (hag.2.2.1 u hu).1, hag.2.2.2 u hu (Or.inr rfl), ?_, ?_⟩
+  · rw [setUserPerm_valid s f u (b u) rec perm hf hu (hshm u hu).1]; rfl
+  · rw [setUserPerm_valid s f u (b u) rec perm hf hu (hshm u hu).1]
+    refine ⟨_, rfl, ?_, ?_, ?_⟩
+    · intro j hj
+      rw [record_afterSync f u u _ hlen hl2 hu hu, if_pos rfl, recSetMoney_other _ _ hl1 j hj]
+    · rw [record_afterSync f u u _ hlen hl2 hu hu, if_pos rfl]
+      obtain ⟨hlv, _, hdis⟩ := gen_facts_level
+      have e1 : ((recSetMoney (recSetLevel rec perm) (b u)).drop Gen.Money.userLevelOffset).take 4 =
+          ((recSetLevel rec perm).drop Gen.Money.userLevelOffset).take 4 := by
+        unfold recSetMoney MOFF
+        apply slice_writeAt_disjoint _ _ _ _ _ (by rw [le32_length, hl1]; exact gen_facts.2.2.2.1)
+        rw [le32_length]; omega
+      rw [e1]
+      unfold recSetLevel LOFF
+      have := slice_writeAt_same rec (le32 (Int.ofNat perm)) Gen.Money.userLevelOffset
+        (by rw [le32_length, hr]; exact hlv)
+      rwa [le32_length] at this
+    · intro v hv hne
+      exact ⟨f, hf, by rw [record_afterSync f u v _ hlen hl2 hu hv, if_neg hne]⟩
+
+/-- `passwdSyncQuery` (through `ptt.GetUser`) on a valid slot returns a record whose Money is the SHM value = the
+abstract balance, whatever the Money bytes of .PASSWDS are; every other byte is the (bool-normalised) file record. -/
+theorem syncquery_returns_balance (s : State) (b : Bal) (D : Int → Prop) (u : Int) (h : Agree s b D) (hu : Valid u) :
+    ∃ f, s.file = some f ∧
+      passwdSyncQuery s u = .ok (.ok (recSetMoney (normRec (record f u)) (b u))) := by
+  obtain ⟨⟨hs, f, hf, hlen⟩, hshm, _⟩ := h
+  obtain ⟨h0, hk, _⟩ := valid_bounds u hu
+  refine ⟨f, hf, ?_⟩
+  have hin : RSZ * (u - 1).toNat + RSZ ≤ f.length := by
+    have h1 : RSZ * ((u - 1).toNat + 1) ≤ RSZ * MAX := Nat.mul_le_mul_left _ hk
+    rw [Nat.mul_succ] at h1
+    rw [hlen]; exact h1
+  unfold passwdSyncQuery passwdQuery
+  simp only [(uidIsValid_iff u).2 hu, Bool.not_true, Bool.false_eq_true, if_false, hf, toIdx_valid u hu]
+  rw [if_neg (by omega), if_pos hin]
+  simp only [moneyOf_valid s u (b u) hu (hshm u hu).1]
+  rfl
 
 /-! #### balances never go negative -/
 
@@ -290,7 +429,8 @@ theorem zeroState_agree : Agree zeroState (fun _ => 0) (fun _ => True) := by
 /-- a history inside int32 with a credit, a debit below zero, a set at the int32 limit on the last slot and an
 operation on an invalid slot. -/
 example : NoOverflowRun (fun _ => 0)
-    [.de 1 5, .de 1 (-7), .set (MAX : Int) 2147483647, .de (MAX : Int) (-2147483647), .set 0 9, .get 1] := by
+    [.de 1 5, .load 1, .de 1 (-7), .sync 1 (List.replicate Gen.Money.recSize 0) 7,
+     .set (MAX : Int) 2147483647, .de (MAX : Int) (-2147483647), .set 0 9, .get 1] := by
   have hmax : MAX = 50 := by decide
   simp [NoOverflowRun, NoOverflow, specStep, Int32, Valid, upd, deNew, hmax]
 
